@@ -46,10 +46,10 @@ func c03Step(server bool, prop string) {
 
 	if prop == "C03" {
 		verifAssert(nOpen <= 1, "C03: at most one AEAD open per datagram")
-		if delivered || ss.handleState != oldState || ss.window != oldWin {
+		if delivered || ss.handleState != oldState || ss.window != oldWin || ss.remoteAddr != oldAddr {
 			// anything observable happened: it must rest on a successful open of
 			// exactly this datagram under this direction's key
-			verifAssert(opened, "C03: nothing is delivered and no state moves unless the datagram authenticated")
+			verifAssert(opened, "C03: nothing is delivered and no state moves (lifecycle, replay window, peer address) unless the datagram authenticated")
 		}
 		if opened {
 			rec := sessLog.opens[nOpen-1]
